@@ -252,17 +252,18 @@ pub fn weak(cx: &mut Ctx, args: &Args, rng: &mut Rng) -> i32 {
         let probes = probe_blocks(&mut r, bs);
         for (j, (kc, key)) in keys.iter().enumerate() {
             weak_ev(cx, ti, key, kc);
-            // new_checked vs new (observed) for a sample of keys
-            if j % 7 == 0 || kc == "zero" {
-                let a = cx.construct(ti, "checked", key, kc);
-                if let Some((id, inst)) = a {
+            // new_checked must fail exactly when weak_key_test does: every key goes through both routes (a type may
+            // override new_checked with its own screening); the resulting instance is compared with `new` on a sample
+            let a = cx.construct(ti, "checked", key, kc);
+            if let Some((id, inst)) = a {
+                if j % 7 == 0 || kc == "zero" {
                     observe(cx, id, inst.as_ref(), &probes);
                     if let Some((id2, i2)) = cx.construct(ti, "new", key, kc) {
                         observe(cx, id2, i2.as_ref(), &probes);
                         cx.drop_inst(id2, i2);
                     }
-                    cx.drop_inst(id, inst);
                 }
+                cx.drop_inst(id, inst);
             }
         }
         cx.end();
